@@ -22,6 +22,7 @@ from collections import Counter
 
 import vlib
 from props import c13 as base
+from props import visual_c04
 
 
 # ---- histories as text ------------------------------------------------------------------------------------------------
@@ -65,6 +66,29 @@ def _store(s):
 
 
 def parse_output(out):
+    shared = base.parse_output(out)       # call / fd / pos / trk lines of the predict operations (for tie detection)
+    cases = _parse_ops(out)
+    if len(shared) == len(cases):
+        for c, sc in zip(cases, shared):
+            c["calls"] = sc["calls"]
+    else:
+        for c in cases:
+            c["calls"] = None
+    return cases
+
+
+def tie_ops(case):
+    """operation indices of the predict calls whose association is not forced: two competing appearance claims within the
+    margin, or more than one optimal positional association (decided from the oracle tables, not from the records).
+    None when the tables are not available (then nothing is compared)."""
+    if case.get("calls") is None:
+        return None
+    pseudo = {"spec": case["spec"], "calls": case["calls"]}
+    pos = visual_c04.tie_calls(pseudo)
+    return {case["calls"][ci]["j"] for ci in pos}
+
+
+def _parse_ops(out):
     cases = []
     cur = None
     for line in out.split("\n"):
@@ -266,18 +290,30 @@ def observable(case, exact_ids):
     return out
 
 
+def compare_pair(ca, cb, p1, p2):
+    """-> (fails, tie stop index or None). The runs are compared up to the first predict whose association is not forced
+    (in either run): from there on the outputs may legitimately depend on the store's iteration order."""
+    exact = ca["spec"]["trk"] == "vs"
+    a, b = observable(ca, exact), observable(cb, exact)
+    ta, tb = tie_ops(ca), tie_ops(cb)
+    if ta is None or tb is None:
+        return [], 0
+    ties = ta | tb
+    stop = min(ties) if ties else None
+    n = min(len(a), len(b)) if stop is None else min(len(a), len(b), stop)
+    for i in range(n):
+        if a[i] != b[i]:
+            return [("paired-run", i, "operation %d (%s): periodicity %d gives %s, periodicity %d gives %s" % (i, ca["steps"][i]["head"], p1, str(a[i])[:300], p2, str(b[i])[:300]))], stop
+    if stop is None and len(a) != len(b):
+        return [("paired-run", min(len(a), len(b)), "the runs have %d and %d operations" % (len(a), len(b)))], stop
+    return [], stop
+
+
 def pair_check(line, p1, p2):
     cs = run_lines([with_period(line, p1), with_period(line, p2)])
     if len(cs) != 2:
         return [("no-output", 0, "harness printed nothing")]
-    exact = cs[0]["spec"]["trk"] == "vs"
-    a, b = observable(cs[0], exact), observable(cs[1], exact)
-    for i in range(min(len(a), len(b))):
-        if a[i] != b[i]:
-            return [("paired-run", i, "operation %d (%s): periodicity %d gives %s, periodicity %d gives %s" % (i, cs[0]["steps"][i]["head"], p1, str(a[i])[:300], p2, str(b[i])[:300]))]
-    if len(a) != len(b):
-        return [("paired-run", min(len(a), len(b)), "the runs have %d and %d operations" % (len(a), len(b)))]
-    return []
+    return compare_pair(cs[0], cs[1], p1, p2)[0]
 
 
 def shrink(line, fails, budget=70):
@@ -365,8 +401,6 @@ def c03_visual_stage(chk):
     n_pairs = 0
     if len(pcs) == len(plines):
         for (i, p1, p2), j in zip(meta, range(0, len(pcs), 2)):
-            exact = pcs[j]["spec"]["trk"] == "vs"
-            a, b = observable(pcs[j], exact), observable(pcs[j + 1], exact)
             n_pairs += 1
             # each run of the pair also has to satisfy the ledger
             for q in (pcs[j], pcs[j + 1]):
@@ -374,16 +408,19 @@ def c03_visual_stage(chk):
                 if fq:
                     failing.append((i, fq, q["line"]))
                     break
-            if a != b:
-                idx = next((x for x in range(min(len(a), len(b))) if a[x] != b[x]), min(len(a), len(b)))
-                failing.append((i, [("paired-run", idx, "operation %d: periodicity %d gives %s, periodicity %d gives %s" % (
-                    idx, p1, str(a[idx])[:300] if idx < len(a) else None, p2, str(b[idx])[:300] if idx < len(b) else None))], (p1, p2)))
+            fp, stop = compare_pair(pcs[j], pcs[j + 1], p1, p2)
+            if stop is not None:
+                stats["pair_tie_stops"] += 1
+                stats["pair_ops_not_compared_after_tie"] += max(0, len(pcs[j]["steps"]) - stop)
+            if fp:
+                failing.append((i, fp, (p1, p2)))
     else:
         chk.broken.append("paired runs: %d specifications, %d outputs" % (len(plines), len(pcs)))
     chk.log("visual trackers: %d histories, %d operations, %d paired runs (%.1fs)" % (len(cases), stats["ops"], n_pairs, time.time() - t0))
     chk.coverage["visual"] = {
         "evaluations": len(cases), "operations": stats["ops"], "predicts": stats["predicts"], "empty_predicts": stats["empty_predicts"],
-        "paired_runs": n_pairs, "distinct_nontrivial": nontriv,
+        "paired_runs": n_pairs, "paired_tie_stops": stats["pair_tie_stops"], "paired_ops_not_compared_after_tie": stats["pair_ops_not_compared_after_tie"],
+        "distinct_nontrivial": nontriv,
         "rule": "operation histories of 12-51 operations over VisualSort / BatchVisualSort: predict (a quarter of VisualSort's predicts EMPTY), skip 1-4 epochs, "
                 "wasted, idle, clear_wasted, set_auto_waste 0/1/2/100, current_epoch, active / wasted statistics; 1-3 scenes, max_idle 0-3, 1-3 stationary objects, "
                 "features 100/70/0%; every history additionally under two periodicities (set_auto_waste operations replaced). non-trivial = a wasted() call "
@@ -399,35 +436,42 @@ def c03_visual_stage(chk):
         if clause in seen:
             continue
         seen.add(clause)
-        c = cases[i]
-        if clause == "paired-run":
-            p1, p2 = extra
+        try:
+            c = cases[i]
+            if clause == "paired-run":
+                p1, p2 = extra
 
-            def fails(line, p1=p1, p2=p2):
-                return any(k == "paired-run" for k, _, _ in pair_check(line, p1, p2))
-            base_line = c["line"]
-        else:
-            def fails(line, clause=clause):
-                cs = run_lines([line])
-                return bool(cs) and any(k == clause for k, _, _ in ledger(cs[0])[0])
-            base_line = extra if isinstance(extra, str) else c["line"]
-        small = shrink(base_line, fails, budget=70)
-        if clause == "paired-run":
-            f2 = pair_check(small, p1, p2)
-            runs = run_lines([with_period(small, p1), with_period(small, p2)])
-        else:
-            runs = run_lines([small])
-            f2 = [x for x in (ledger(runs[0])[0] if runs else []) if x[0] == clause]
-        trace = [[(st["head"], st["res"] if not isinstance(st["res"], list) else [(r.get("id"), r.get("len"), r.get("epoch")) for r in st["res"]],
-                   [t["id"] for t in st["main"]], [t["id"] for t in st["wst"]]) for st in r["steps"]] for r in runs]
-        chk.violation("C03:visual:" + clause, (f2 or f)[0][2],
-                      {"stage": "visual_c03", "input": small, "tracker": c["spec"]["trk"], "clause": clause,
-                       "periodicities": list(extra) if clause == "paired-run" else None,
-                       "operations": ops_of(small) if len(small) < 4000 else None,
-                       "oracle_failures": [list(x) for x in (f2 or f)[:6]],
-                       "trace (operation, result [(id, length, epoch)], live store ids, collected store ids)": trace,
-                       "other_failing_histories": len(failing) - 1,
-                       "replay_cmd": "./check C03 --replay <this file>   (runs: visual replay03 --file <spec>)"})
+                def fails(line, p1=p1, p2=p2):
+                    return any(k == "paired-run" for k, _, _ in pair_check(line, p1, p2))
+                base_line = c["line"]
+            else:
+                def fails(line, clause=clause):
+                    cs = run_lines([line])
+                    return bool(cs) and any(k == clause for k, _, _ in ledger(cs[0])[0])
+                base_line = extra if isinstance(extra, str) else c["line"]
+            small = shrink(base_line, fails, budget=70)
+            if clause == "paired-run":
+                f2 = pair_check(small, p1, p2)
+                runs = run_lines([with_period(small, p1), with_period(small, p2)])
+            else:
+                runs = run_lines([small])
+                f2 = [x for x in (ledger(runs[0])[0] if runs else []) if x[0] == clause]
+            trace = [[(st["head"], st["res"] if not isinstance(st["res"], list) else [(r.get("id"), r.get("len"), r.get("epoch")) for r in st["res"]],
+                       [t["id"] for t in st["main"]], [t["id"] for t in st["wst"]]) for st in r["steps"]] for r in runs]
+            chk.violation("C03:visual:" + clause, (f2 or f)[0][2],
+                          {"stage": "visual_c03", "input": small, "tracker": c["spec"]["trk"], "clause": clause,
+                           "periodicities": list(extra) if clause == "paired-run" else None,
+                           "operations": ops_of(small) if len(small) < 4000 else None,
+                           "oracle_failures": [list(x) for x in (f2 or f)[:6]],
+                           "trace (operation, result [(id, length, epoch)], live store ids, collected store ids)": trace,
+                           "other_failing_histories": len(failing) - 1,
+                           "replay_cmd": "./check C03 --replay <this file>   (runs: visual replay03 --file <spec>)"})
+        except Exception as ex:      # the shrinker / re-run must never take the check down: report the unshrunk history
+            import traceback
+            line0 = cases[i]["spec"]["line"] if "spec" in cases[i] else cases[i].get("line")
+            chk.violation("C03:visual:" + clause, what0,
+                          {"stage": "visual_c03", "input": line0, "clause": clause, "oracle_failures": [list(x) for x in f[:6]],
+                           "note": "not shrunk: " + traceback.format_exc()[-800:]})
         if len(seen) >= 3:
             break
 
